@@ -22,9 +22,9 @@ META = {
         'converted value, and the result is converted back .to(u); C19.AB - sdssflux2ab copies its input, one correction vector '
         'reaches all three uses, magnitudes add it, fluxes multiply by 10**(-c/2.5), inverse variances by 1/factor**2; C19.FILTER - '
         'with a mask filter_thru sums the interpolated flux only, interpolation runs along the axis that is summed (derived from the '
-        'djs_maskinterp dispatch), and every band is divided by its own zero-guarded response sum. C19.SCALAR - the sub-2000 A entries are restored without item assignment into the formula\'s result (np.where), so 0-d input works; C19.UNITS also: sigma2 is recomputed from the current estimate inside the airtovac iteration. NOT decided: inverse to 1e-6 A, '
+        'djs_maskinterp dispatch), and every band is divided by its own zero-guarded response sum. C19.SCALAR - the sub-2000 A entries are restored without item assignment into the formula\'s result (np.where), so 0-d input works; C19.UNITS also: sigma2 is recomputed from the current estimate inside the airtovac iteration. C19.FLOAT-OUT - the array of band fluxes filter_thru returns is not allocated in the dtype of the flux image; NOT decided: inverse to 1e-6 A, '
         'vacuum > air, linearity and mean-value bounds of filter_thru (numerical).'),
-    'floors': {'C19.SCALAR': 2, 'C19.FACT': 3, 'C19.THRESH': 6, 'C19.NOMUT': 3, 'C19.UNITS': 5, 'C19.AB': 4, 'C19.FILTER': 5},
+    'floors': {'C19.FLOAT-OUT': 1, 'C19.SCALAR': 2, 'C19.FACT': 3, 'C19.THRESH': 6, 'C19.NOMUT': 3, 'C19.UNITS': 5, 'C19.AB': 4, 'C19.FILTER': 5},
 }
 
 ASTRO = 'pydl/goddard/astro.py'
@@ -440,6 +440,9 @@ def check_filter(ctx, repo):
 
 
 def run(ctx):
+    from .floatlib import check_float_alloc
+    check_float_alloc(ctx, ctx.repo, 'C19.FLOAT-OUT', [(SPEC2D, 'filter_thru')],
+                      'the weighted band means of an integer flux image are truncated (a constant spectrum c no longer returns c)')
     check_refraction(ctx, ctx.repo)
     check_ab(ctx, ctx.repo)
     check_filter(ctx, ctx.repo)
